@@ -161,4 +161,13 @@ theorem consts_table_regexps_tied : GM.Spec.Consts.allOk GM.Spec.Consts.tableReg
     exactly one cell per column and body rows with exactly one cell per column (GM.Props.C17.table_rectangular). -/
 theorem convertx_tables_rectangular_partial : type_of% @GM.Props.ConvertX.convertx_tables_rectangular_partial := @GM.Props.ConvertX.convertx_tables_rectangular_partial
 
+/-- (re-export of `GM.Props.ConvertX.tables_rectangular_of_store`) `tables_rectangular_of_store` (C17 on the composed OUTPUT tree, the tree half): for every member set, source and class
+    assignment, if the store is rectangular then so is the tree the renderer receives. `docTreeX` keeps child counts
+    (`docTreesX` is a map), gives every node the decoded kind (`blockKindX`), gives a Table / TableHeader / TableRow node no
+    inline children, and inline subtrees contain no table kind; without the member no node has a table kind at all. -/
+theorem tables_rectangular_of_store : type_of% @GM.Props.ConvertX.tables_rectangular_of_store := @GM.Props.ConvertX.tables_rectangular_of_store
+
+/-- (re-export of `GM.Props.ConvertX.doc_tree_keeps_rectangular`) the tree half for one tree: `rectT` of a block tree ⇒ `rectB` of what `docTreeX` makes of it -/
+theorem doc_tree_keeps_rectangular : type_of% @GM.Props.ConvertX.doc_tree_keeps_rectangular := @GM.Props.ConvertX.doc_tree_keeps_rectangular
+
 end GM.Props.C17
